@@ -7,6 +7,7 @@ import (
 	"bytes"
 	"fmt"
 	"strings"
+	"time"
 
 	"github.com/mdlayher/corerad/internal/verifsim"
 	"github.com/mdlayher/ndp"
@@ -105,6 +106,20 @@ func c03Gen(rng *verifsim.RNG, idx int, tier string) *Plan {
 	}
 
 	p.Actions = []Action{rsAction(300*nsMs+jitter(rng), hostAddr(0)), rsAction(700*nsMs+jitter(rng), "::")}
+	if rng.Bool(0.3) {
+		// Clock-dependent durations: deprecated stanzas whose deadline passes
+		// while the daemon runs; RAs before, around and after the deadline.
+		p.Class += "+deprecated"
+		v := time.Duration(rng.Range(500, 4000)) * time.Millisecond
+		q := time.Duration(1 + rng.Int63n(int64(v)))
+		s.Prefixes = append(s.Prefixes, PrefixSpec{Prefix: sp("2001:db8:dead::/64"), Deprecated: true, Valid: sp(v.String()), Preferred: sp(q.String())})
+		r := time.Duration(rng.Range(500, 4000)) * time.Millisecond
+		s.Routes = append(s.Routes, RouteSpec{Prefix: sp("2001:db8:dead::/48"), Deprecated: true, Lifetime: sp(r.String())})
+		for _, d := range []time.Duration{v, q, r} {
+			p.Actions = append(p.Actions, rsAction(int64(d)+int64(rng.Range(-1, 1))*int64(rng.Dur(0, 200*time.Millisecond)), hostAddr(1)))
+		}
+		p.Actions = append(p.Actions, rsAction(4300*nsMs+jitter(rng), hostAddr(2)))
+	}
 	p.Horizon = 5 * nsSec
 	p.Stop = []string{"SIGTERM", "SIGHUP"}[rng.Intn(2)]
 	return p
